@@ -156,6 +156,35 @@ def constant_cases(rng, tier, op='encode'):
     return cs
 
 
+def block_border_cases(rng, tier, op='encode'):
+    """long inputs of one kind (letters, digits, high bytes, each alphabet) whose lengths lie around the powers of two, with one
+    byte of another kind at the start, the end, a power-of-two offset or anywhere, under all modes and under the single mode
+    that suits the alphabet: the inputs on which a block-wise fast path in an encoder, planner or decoder would differ from the
+    per-character code"""
+    cs = []
+    lens = [16, 17, 64, 65, 256, 257, 1024, 1025] if tier == 'quick' else \
+        [15, 16, 17, 31, 32, 33, 63, 64, 65, 127, 128, 129, 255, 256, 257, 511, 512, 513, 1023, 1024, 1025, 1400]
+    odd = [0, 10, 31, 32, 48, 57, 65, 97, 127, 128, 159, 160, 200, 255]
+    flag = {'digits': 1, 'c40': 2, 'text': 4, 'x12': 8, 'edifact': 16, 'high': 32}
+    for kind in ('c40', 'digits', 'high', 'text', 'x12', 'edifact'):
+        for L in lens:
+            if kind == 'high' and L > 1500:
+                continue
+            base = [rng.choice(ALPH[kind]) for _ in range(L)]
+            variants = [base]
+            for posn in (0, L - 1, 15, 16, 63, 64, 255, 256, 1023, 1024, rng.below(L)):
+                if posn < L and (tier != 'quick' or rng.chance(1, 5)):
+                    v = list(base)
+                    v[posn] = rng.choice(odd)
+                    variants.append(v)
+            for v in variants:
+                modes = 63 if rng.chance(1, 2) else (flag[kind] | 1)
+                line = encode_line(v, ALL48, modes, False, False, None).replace('encode', op, 1)
+                cs.append({'line': line, 'cat': 'block-border-' + kind,
+                           'cfg': dict(data=v, wl=ALL48, modes=modes, macros=False, fnc1=False, eci=None)})
+    return cs
+
+
 def limit_cases(rng, tier, op='encode'):
     """inputs at the upper limit of what can be encoded at all: for the largest symbol of the list (and, thorough, for
     lists topped by each of the other large symbols) and each scheme, a run whose encodation needs cap-1, cap, cap+1 ..
